@@ -16,7 +16,8 @@ RULE = ("(a) format level: images of 0-4096 bytes (Hypothesis binary plus constr
         "must recover header (base, length, name), payload and the end-around-carry checksum. (b) path level: generated sources and "
         "selectors (-o with .bin/.BIN/other/no extension, relative, absolute, sub-directory, '-'; --implicit-bin with .mac/.MAC/no "
         "suffix; make_bin/make_raw/make_wav/make_turbo_wav/make_bk0010_rom without path, with relative or absolute path, with tape name; "
-        "several directives; sources in sub-directories or on stdin; cwd different from the source directory) through the CLI; "
+        "several directives; paths and tape names whose last character is a <code> or <forward symbol> chunk; absolute and relative paths that are "
+        "not in normal form (.., ., //); sources in sub-directories or on stdin; cwd different from the source directory) through the CLI; "
         "oracle: the set of new files is exactly the predicted set and each holds the container of the image obtained from an "
         "in-process assembly of the same sources. Non-trivial: image >= 3 bytes with >= 2 distinct byte values or a special-sum image; "
         "path cases with >= 1 output; distinct = distinct (image, base, name) / (tree, argv).")
@@ -111,25 +112,28 @@ def path_case(draw):
     nd = draw(st.integers(0, 3))
     for i in range(nd):
         d = draw(st.sampled_from(["make_bin", "make_raw", "make_wav", "make_turbo_wav", "make_bk0010_rom", "make_bin", "make_raw"]))
-        pk = draw(st.sampled_from(["none", "rel", "rel-sub", "abs", "rel-up"]))
+        pk = draw(st.sampled_from(["none", "rel", "rel-sub", "abs", "rel-up", "abs-dotdot", "abs-dot", "rel-dot"]))
         if pk != "none" or True:
             fname = draw(st.sampled_from(["out", "out.bin", "OUT.BIN", "res.raw", "t.wav", "T.WAV", "data.x", "тест.wav"])) + ("" if i == 0 else str(i))
-        path = {"none": None, "rel": fname, "rel-sub": "outdir/" + fname, "abs": "{ROOT}/absdir/" + fname, "rel-up": "../" + fname}[pk]
+        path = {"none": None, "rel": fname, "rel-sub": "outdir/" + fname, "abs": "{ROOT}/absdir/" + fname, "rel-up": "../" + fname,
+                "abs-dotdot": "{ROOT}/absdir/../absdir/" + fname, "abs-dot": "{ROOT}/./absdir//" + fname, "rel-dot": "./outdir/../outdir/" + fname}[pk]
         if pk == "rel-up" and (srcdir == "" or use_stdin):
             path = fname      # '..' would leave the scratch directory
         tape = None
         if d in ("make_wav", "make_turbo_wav") and path is not None and draw(st.booleans()):
             tape = draw(st.sampled_from(["NAME", "", "sixteen chars ok!", "Игра", "a b", "x" * 16]))
-        directives.append([d, path, tape])
+        # how the last character of the path / tape name is written: as part of the string, as a <code> chunk, or as a <symbol>
+        # chunk whose symbol is defined at the end of the file (the directive cannot be evaluated where it stands)
+        directives.append([d, path, tape, draw(st.sampled_from(["plain", "plain", "chunk", "chunk-forward"]))])
     # with a pathless directive the default name is derived from the source: allow at most one of each extension class
     seen = set()
     clean = []
-    for d, path, tape in directives:
-        key = (path if path is not None else "default-" + {"make_bin": "bin", "make_bk0010_rom": "bin", "make_raw": "raw", "make_wav": "wav", "make_turbo_wav": "wav"}[d])
+    for d, path, tape, spell in directives:
+        key = (os.path.normpath(path) if path is not None else "default-" + {"make_bin": "bin", "make_bk0010_rom": "bin", "make_raw": "raw", "make_wav": "wav", "make_turbo_wav": "wav"}[d])
         if key in seen:
             continue
         seen.add(key)
-        clean.append([d, path, tape])
+        clean.append([d, path, tape, spell])
     o = draw(st.sampled_from([None, None, "o.bin", "o.BIN", "o.raw", "o", "outdir/o.bin", "{ROOT}/absdir/o.bin", "o.bin.txt", "-", "./o.Bin"]))
     implicit = draw(st.booleans())
     cwd = draw(st.sampled_from(["", "", "work/"]))
@@ -142,7 +146,18 @@ def build_path_case(c, root):
     """-> (tree, argv, stdin, cwd_rel, expected outputs {relpath: (fmt, tape)} or None if stdout, expected failure?)"""
     lines = c["body"]
     q = c["quote"]
-    for d, path, tape in c["directives"]:
+    tail = ""
+
+    def spelled(text, qq, spell, tag):
+        nonlocal tail
+        if spell == "plain" or not text or ord(text[-1]) > 0x7F:
+            return f"{qq}{text}{qq}"
+        if spell == "chunk":
+            return f"{qq}{text[:-1]}{qq}<{ord(text[-1]):o}>"
+        tail += f"{tag} = {ord(text[-1]):o}\n"
+        return f"{qq}{text[:-1]}{qq}<{tag}>"
+    for i, (d, path, tape, *rest) in enumerate(c["directives"]):
+        spell = rest[0] if rest else "plain"
         line = "\t" + d
         if path is not None:
             p = path.replace("{ROOT}", root)
@@ -150,10 +165,11 @@ def build_path_case(c, root):
                 qq = '"'
             else:
                 qq = q
-            line += f" {qq}{p}{qq}"
+            line += " " + spelled(p, qq, spell, f"pch{i}")
             if tape is not None:
-                line += f", {qq}{tape}{qq}"
+                line += ", " + spelled(tape, qq, spell, f"tch{i}")
         lines += line + "\n"
+    lines += tail
     src_rel = c["srcdir"] + c["srcname"]
     tree = {"outdir/": None, "absdir/": None, "work/": None, "work/outdir/": None, "src/": None, "src/outdir/": None, "a/b/": None, "a/b/outdir/": None,
             "a/outdir/": None}
@@ -184,12 +200,12 @@ def predict_outputs(c, root):
         src_file = os.path.join(root, c["srcdir"] + c["srcname"])
         src_dir = os.path.dirname(src_file)
     charset = c["charset"]
-    for d, path, tape in c["directives"]:
+    for d, path, tape, *_rest in c["directives"]:
         fmt = {"make_bin": "bin", "make_bk0010_rom": "bin", "make_raw": "raw", "make_wav": "bk_wav", "make_turbo_wav": "bk_turbo_wav"}[d]
         ext = {"bin": ".bin", "raw": "", "bk_wav": ".wav", "bk_turbo_wav": ".wav"}[fmt]
         if path is not None:
             p = path.replace("{ROOT}", root)
-            wp = p if os.path.isabs(p) else os.path.normpath(os.path.join(src_dir, p))
+            wp = os.path.normpath(p) if os.path.isabs(p) else os.path.normpath(os.path.join(src_dir, p))
         else:
             wp = src_file
             if wp.lower().endswith(".mac"):
@@ -296,7 +312,7 @@ def shards(tier):
     for i in range(16):
         specs.append({"part": "lengths", "i": i, "n": 16, "top": top})
     k = 8
-    n_wav, n_bin, n_cli = (400, 3000, 800) if tier == "quick" else (6000, 60000, 15000)
+    n_wav, n_bin, n_cli = (400, 3000, 3200) if tier == "quick" else (6000, 60000, 30000)
     for i in range(k):
         specs.append({"part": "wav", "i": i, "examples": n_wav // k})
     for i in range(4):
@@ -354,7 +370,8 @@ def run_shard(spec, ctx):
         nout = len(c["directives"]) + (1 if c["o"] else 0)
         labels = [f"directives-{len(c['directives'])}", "o-" + ("none" if c["o"] is None else "stdout" if c["o"] == "-" else "abs" if "{ROOT}" in c["o"] else "rel"),
                   "stdin" if c["stdin"] else "file", "cwd-sub" if c["cwd"] else "cwd-root", "implicit" if c["implicit"] else "no-implicit",
-                  f"status-{info['status']}"] + [f"dir-{d[0]}-{'nopath' if d[1] is None else 'abs' if '{ROOT}' in d[1] else 'rel'}" for d in c["directives"]]
+                  f"status-{info['status']}"] + [f"dir-{d[0]}-{'nopath' if d[1] is None else 'abs' if '{ROOT}' in d[1] else 'rel'}" for d in c["directives"]] + [f"path-spelled-{d[3]}" for d in c["directives"] if len(d) > 3 and d[1] is not None] \
+                 + ["path-not-normal" for d in c["directives"] if d[1] is not None and ("/../" in d[1] or "/./" in d[1] or "//" in d[1])]
         ctx.case(repr(c), nout >= 1 or c["implicit"], labels, sample=c if ctx.evaluations % 61 == 2 else None)
         if not fails and ctx.evaluations % 20 == 0:
             # the same case through a real subprocess must agree with the forked run
